@@ -52,7 +52,10 @@ Headers == <<
   [top |-> 0, cookie |-> TRUE,  class |-> "request",    method |-> 1,    decl |-> 1],
   [top |-> 0, cookie |-> TRUE,  class |-> "request",    method |-> 1,    decl |-> -1],
   [top |-> 0, cookie |-> TRUE,  class |-> "request",    method |-> 1,    decl |-> -8],
-  [top |-> 3, cookie |-> FALSE, class |-> "request",    method |-> 1,    decl |-> 4]
+  [top |-> 3, cookie |-> FALSE, class |-> "request",    method |-> 1,    decl |-> 4],
+  \* 14: the length field matches the bytes actually present, so a damaged last attribute is met by the TLV loop
+  \*     itself and not by the length check of the header
+  [top |-> 0, cookie |-> TRUE,  class |-> "request",    method |-> 1,    decl |-> 0, ofcut |-> TRUE]
 >>
 
 VARIABLES h,        \* index into Headers
@@ -91,8 +94,9 @@ Bytes ==
   LET hh == Headers[h]
       full == Build(HdrBytes(hh), as, 1)
       cut == IF defect = "none" THEN full ELSE Damage(full, Alphabet[as[Len(as)]], defect)
-      \* the length field is computed for the undamaged body: a defect then shows as truncation
-      decl == Len(full) - 20 + hh.decl
+      \* the length field is computed for the undamaged body (a defect then shows as truncation at the header's
+      \* length check) except for header variant 14
+      decl == (IF "ofcut" \in DOMAIN hh THEN Len(cut) ELSE Len(full)) - 20 + hh.decl
   IN SetLen(cut, IF decl < 0 THEN 0 ELSE decl)
 
 Init == h \in HeaderIds /\ as = <<>> /\ defect = "none"
